@@ -2,6 +2,7 @@ package props
 
 import (
 	"fmt"
+	"os"
 	"sort"
 	"strings"
 	"sync"
@@ -48,7 +49,7 @@ func (g *c17Gate) hook(ev *sim.Event) error {
 		return nil
 	}
 	g.count++
-	if len(g.trace) < 400 {
+	if len(g.trace) < 6000 {
 		g.trace = append(g.trace, ev.Kind+" "+ev.Bucket)
 	}
 	if g.count != g.target {
@@ -84,6 +85,7 @@ type c17Query struct {
 }
 
 type c17Env struct {
+	want int64 // amount the building query asks for (fixed per placement: nearly the spendable balance)
 	t    *core.T
 	wd   *sim.World
 	k    *sim.WalletKeys
@@ -129,11 +131,7 @@ var c17Queries = []c17Query{
 		return strings.Join(l, "; "), nil, nil
 	}},
 	{"AutoCreateRawTransaction", func(e *c17Env) (string, *wire.MsgTx, error) {
-		// ask for most of the spendable balance so that many coins are selected
-		want := int64(50000)
-		if wb, err := e.wd.W.W.WalletBalance(1, true); err == nil && wb.Spendable.IntValue() > 400000 {
-			want = wb.Spendable.IntValue() / 2
-		}
+		want := e.want
 		amt, _ := massutil.NewAmountFromInt(want)
 		raw, _, err := e.wd.W.W.AutoCreateRawTransaction(map[string]massutil.Amount{sim.StdAddr(e.wd.StrangerPub()): amt}, 0, massutil.ZeroAmount(), "", "", nil)
 		if err != nil {
@@ -213,6 +211,10 @@ func c17Case(t *core.T, maxGaps int) {
 			return
 		}
 		// dry run: number of reads
+		e.want = 50000
+		if wb, err := wd.W.W.WalletBalance(1, true); err == nil && wb.Spendable.IntValue() > 400000 {
+			e.want = wb.Spendable.IntValue() / 100 * 97
+		}
 		e.gate.arm(0)
 		_, _, err := q.run(e)
 		n, trace := e.gate.disarm()
@@ -221,27 +223,52 @@ func c17Case(t *core.T, maxGaps int) {
 		}
 		t.Observe("reads_per_query", fmt.Sprintf("%s=%d", q.name, n))
 		t.Max("reads_"+q.name, n)
-		var gaps []int
+		var targets []c17Target
+		phases := 0
 		if n <= maxGaps {
 			for j := 1; j <= n; j++ {
-				gaps = append(gaps, j)
+				targets = append(targets, c17Target{index: j})
 			}
 		} else {
-			seen := map[int]bool{1: true, 2: true, 3: true, n: true, n - 1: true}
-			for len(seen) < maxGaps {
-				seen[1+t.R.Intn(n)] = true
+			// the places in front of a read transaction of the call (the first dozen; a building call
+			// opens one more per selected input later on) are always taken: there a call made of several
+			// read transactions can combine two states. The rest of the budget is spread over the reads.
+			// A building call opens one read transaction per selected input (hundreds, all alike) and a
+			// few others (height, coin selection - once per fee iteration): the latter are the phases.
+			// A beginning counts as a phase if the read that follows it is a rare one.
+			freq := map[string]int{}
+			for i, r := range trace {
+				if strings.HasPrefix(r, "beginread") && i+1 < len(trace) {
+					freq[trace[i+1]]++
+				}
 			}
-			for j := range seen {
-				gaps = append(gaps, j)
+			occ := map[string]int{}
+			for i, r := range trace {
+				if !strings.HasPrefix(r, "beginread") || i+1 >= len(trace) {
+					continue
+				}
+				l := trace[i+1]
+				occ[l]++
+				if freq[l] <= 6 && phases < 12 {
+					phases++
+					targets = append(targets, c17Target{label: l, beginread: occ[l]}, c17Target{label: l, beginread: occ[l], twoTips: true})
+				}
 			}
-			sort.Ints(gaps)
+			t.Max("phases_"+q.name, phases)
+			targets = append(targets, c17Target{index: 2}, c17Target{index: 3}, c17Target{permille: 999})
+			for len(targets) < maxGaps+phases {
+				targets = append(targets, c17Target{permille: t.R.Intn(1000)})
+			}
 			t.Count("queries_with_sampled_gaps", 1)
 		}
-		for _, j := range gaps {
+		if os.Getenv("VERIF_C17_DEBUG") != "" {
+			fmt.Fprintf(os.Stderr, "C17DBG targets of %s (n=%d): %+v\n", q.name, n, targets)
+		}
+		for _, tg := range targets {
 			if t.Failed() {
 				return
 			}
-			if !c17Gap(t, e, q, j, trace) {
+			if !c17Gap(t, e, q, tg) {
 				return
 			}
 		}
@@ -250,12 +277,86 @@ func c17Case(t *core.T, maxGaps int) {
 }
 
 // c17Gap: one placement. Returns false when the case cannot go on.
-func c17Gap(t *core.T, e *c17Env, q c17Query, j int, dryTrace []string) bool {
+// c17Target: where the query is parked. beginread k > 0: in front of its k-th read transaction
+// (k counted from 1); else in front of read number frac/1000 of its reads.
+type c17Target struct {
+	label     string // with beginread > 0: the beginread-th read transaction whose first read is `label`
+	beginread int
+	index     int // absolute read index (small queries, all gaps)
+	permille  int // relative position for sampled gaps
+	twoTips   bool
+}
+
+func c17Gap(t *core.T, e *c17Env, q c17Query, tg c17Target) bool {
 	wd := e.wd
 	t.Eval(1)
+	// nearly the whole spendable balance: (almost) every coin the building call considers eligible
+	// ends up as an input, so a coin wrongly taken for eligible shows in the result
+	e.want = 50000
+	if wb, err := wd.W.W.WalletBalance(1, true); err == nil && wb.Spendable.IntValue() > 400000 {
+		e.want = wb.Spendable.IntValue() / 100 * 97
+	}
+	cbw := int64(0)
+	if tg.twoTips {
+		// let everything paid so far mature first, so that nothing large matures inside the window
+		for i := 0; i < 4; i++ {
+			b, err := wd.Extend(0)
+			if err != nil {
+				t.Fatalf("extend: %v", err)
+			}
+			wd.W.Deliver(b)
+		}
+		if !wd.Settle() {
+			t.Inconclusive("handler not idle")
+			return false
+		}
+		// (the request stays satisfiable: the building call iterates selection and fee estimate, and
+		// only its last selection decides; the new tip then pays the wallet a coinbase larger than
+		// every other coin, which a selection with a stale height would take first)
+	}
+	// the coinbase the second new tip pays to the wallet: half of the requested amount - larger than
+	// every other coin (so a selection that takes it for eligible picks it first), not larger than the
+	// request (such a coin is set aside by the selection)
+	cbw = e.want/2 + int64(t.R.Intn(1000))
+	// the undisturbed answer before any commit doubles as the dry run that numbers the reads of
+	// the query in the current state (the numbering drifts as the wallet's coin set changes)
+	e.gate.arm(0)
 	a0, _, err := q.run(e)
+	n, dryTrace := e.gate.disarm()
 	if err != nil {
 		t.Fatalf("%s: %v", q.name, err)
+	}
+	j := 0
+	switch {
+	case tg.beginread > 0:
+		k := 0
+		for i, r := range dryTrace {
+			if strings.HasPrefix(r, "beginread") && i+1 < len(dryTrace) && dryTrace[i+1] == tg.label {
+				k++
+				if k == tg.beginread {
+					j = i + 1
+					break
+				}
+			}
+		}
+	case tg.index > 0:
+		j = tg.index
+	default:
+		j = 1 + tg.permille*n/1000
+	}
+	if os.Getenv("VERIF_C17_DEBUG") != "" && tg.beginread > 0 && tg.beginread <= 3 {
+		fmt.Fprintf(os.Stderr, "C17DBG trace head of %s: %v (target beginread %d -> j=%d)\n", q.name, dryTrace[:minInt(len(dryTrace), 10)], tg.beginread, j)
+		var views []string
+		for i, r := range dryTrace {
+			if strings.HasPrefix(r, "beginread") && i+1 < len(dryTrace) {
+				views = append(views, fmt.Sprintf("%d:%s", i+1, dryTrace[i+1]))
+			}
+		}
+		fmt.Fprintf(os.Stderr, "C17DBG views of %s (n=%d): %v\n", q.name, n, views)
+	}
+	if j < 1 || j > n {
+		t.Count("gap_beyond_query_length", 1)
+		return true
 	}
 	answers := []string{a0}
 	chains := [][]*sim.Block{wd.N.BestChain()}
@@ -294,10 +395,24 @@ func c17Gap(t *core.T, e *c17Env, q c17Query, j int, dryTrace []string) bool {
 		t.Count("gap_beyond_query_length", 1)
 		return true
 	}
+	// how long an undisturbed boundary question may take before it is taken for blocked behind the
+	// parked query (the building call asks hundreds of reads; only the verdict's reach depends on it)
+	bqWait := 1500 * time.Millisecond
+	if strings.HasPrefix(q.name, "AutoCreate") {
+		bqWait = 8 * time.Second
+	}
 	// commits while the query is parked between two reads
 	plan := []string{"connect", "connect+connect", "reorg", "connect+reorg", "reorg+connect"}[t.R.Intn(5)]
+	if tg.twoTips {
+		plan = "connect+connect" // two tips, so that a stale height is two behind; the new tip pays the wallet a large coinbase
+	}
+	defer func() { wd.CoinbaseToWallet = 0 }()
 	placed := 0
-	for _, step := range strings.Split(plan, "+") {
+	for si, step := range strings.Split(plan, "+") {
+		wd.CoinbaseToWallet = 0
+		if tg.twoTips && si == 1 {
+			wd.CoinbaseToWallet = cbw
+		}
 		if step == "reorg" && wd.N.Height() > 4 {
 			d := t.R.Range(1, 2)
 			nb, _, err := wd.Fork(d, d+1, t.R.Range(1, 2))
@@ -310,7 +425,11 @@ func c17Gap(t *core.T, e *c17Env, q c17Query, j int, dryTrace []string) bool {
 			}
 			wd.W.Deliver(nb)
 		} else {
-			b, err := wd.Extend(t.R.Range(1, 3))
+			nr := t.R.Range(1, 3)
+			if tg.twoTips {
+				nr = 0 // coinbases only: nothing of the wallet is spent inside the window
+			}
+			b, err := wd.Extend(nr)
 			if err != nil {
 				release()
 				t.Fatalf("extend: %v", err)
@@ -320,6 +439,9 @@ func c17Gap(t *core.T, e *c17Env, q c17Query, j int, dryTrace []string) bool {
 		if !wd.W.Quiesce(4 * time.Second) {
 			// the follower cannot commit while the query is parked here (a lock the query holds
 			// protects this gap): nothing to observe, let it go on
+			if os.Getenv("VERIF_C17_DEBUG") != "" {
+				fmt.Fprintf(os.Stderr, "C17DBG follower-wait at step %q of %s (gap %d)\n", step, plan, j)
+			}
 			t.Count("gaps_where_the_follower_must_wait", 1)
 			t.Observe("protected_gaps", fmt.Sprintf("%s@%d", q.name, j))
 			break
@@ -337,7 +459,15 @@ func c17Gap(t *core.T, e *c17Env, q c17Query, j int, dryTrace []string) bool {
 		var br res
 		select {
 		case br = <-bq:
-		case <-time.After(1500 * time.Millisecond):
+		case <-time.After(bqWait):
+			if os.Getenv("VERIF_C17_DEBUG") != "" {
+				fmt.Fprintf(os.Stderr, "C17DBG boundary-query-wait at step %q of %s (gap %d)\n", step, plan, j)
+				if j > 80 {
+					for _, g := range c20Dump() {
+						fmt.Fprintf(os.Stderr, "C17DBG   goroutine %s [%s] top=%s\n%s\n", g.id, g.state, g.top, firstN(g.text, 1500))
+					}
+				}
+			}
 			t.Count("boundary_queries_that_waited_for_the_parked_query", 1)
 			release()
 			select {
@@ -384,6 +514,48 @@ func c17Gap(t *core.T, e *c17Env, q c17Query, j int, dryTrace []string) bool {
 		t.Violate("query-fails-during-sync:"+q.name, fmt.Sprintf("%s fails when %s lands before its read %d: %v", q.name, plan, j, r.err), w)
 		return false
 	}
+	if os.Getenv("VERIF_C17_DEBUG") != "" && r.tx != nil {
+		v, _ := sim.ViewOfChain(chains[len(chains)-1])
+		maxH := uint64(0)
+		for _, in := range r.tx.TxIn {
+			if o := v.Outs[in.PreviousOutPoint]; o != nil && o.Height > maxH {
+				maxH = o.Height
+			}
+		}
+		nilIn, bigIn := 0, 0
+		for _, in := range r.tx.TxIn {
+			o := v.Outs[in.PreviousOutPoint]
+			if o == nil {
+				nilIn++
+			} else if o.Value > 50000000000 {
+				bigIn++
+				fmt.Fprintf(os.Stderr, "C17DBG   big input h=%d val=%d mature-at-final=%v\n", o.Height, o.Value, v.Mature(o))
+			}
+		}
+		fmt.Fprintf(os.Stderr, "C17DBG   inputs unknown to the final view: %d, big inputs %d\n", nilIn, bigIn)
+		fmt.Fprintf(os.Stderr, "C17DBG   inputs=%d maxInputHeight=%d tips=%d..%d want=%d\n", len(r.tx.TxIn), maxH, chains[0][len(chains[0])-1].Height, v.Tip, e.want)
+	}
+	if os.Getenv("VERIF_C17_DEBUG") != "" && tg.twoTips {
+		if m, err := wd.W.W.GetUtxo(nil); err == nil {
+			var big []string
+			var sum int64
+			for _, l := range m {
+				for _, u := range l {
+					if u.Confirmations >= u.Maturity && !u.SpentByUnmined {
+						sum += u.Amount.IntValue()
+					}
+					if u.Amount.IntValue() > 50000000000 {
+						big = append(big, fmt.Sprintf("h=%d amt=%d mat=%d conf=%d", u.BlockHeight, u.Amount.IntValue(), u.Maturity, u.Confirmations))
+					}
+				}
+			}
+			wb, _ := wd.W.W.WalletBalance(1, true)
+			fmt.Fprintf(os.Stderr, "C17DBG   twoTips: want=%d matureSumNow=%d spendableNow=%d big=%v\n", e.want, sum, wb.Spendable.IntValue(), big)
+		}
+	}
+	if os.Getenv("VERIF_C17_DEBUG") != "" {
+		fmt.Fprintf(os.Stderr, "C17DBG %s gap=%d/%d tg=%+v plan=%s placed=%d answer=%s\n", q.name, j, n, tg, plan, placed, firstN(r.a, 60))
+	}
 	distinct := map[string]bool{}
 	for _, a := range answers {
 		distinct[a] = true
@@ -410,6 +582,9 @@ func c17Gap(t *core.T, e *c17Env, q c17Query, j int, dryTrace []string) bool {
 			}
 		}
 	}
+	if os.Getenv("VERIF_C17_DEBUG") != "" && r.tx != nil {
+		fmt.Fprintf(os.Stderr, "C17DBG   verdict ok=%v reason=%q chains=%d\n", ok, reason, len(chains))
+	}
 	if len(distinct) > 1 {
 		t.Nontrivial(fmt.Sprintf("%s|%d|%s", q.name, j, plan))
 		t.Count("placements_with_distinguishable_boundaries", 1)
@@ -419,7 +594,7 @@ func c17Gap(t *core.T, e *c17Env, q c17Query, j int, dryTrace []string) bool {
 	if !ok {
 		w := wd.Witness()
 		w["query"], w["gap_before_read"], w["plan"] = q.name, j, plan
-		w["reads_of_the_query"] = dryTrace
+		w["reads_of_the_query"] = tailStr(dryTrace[:minInt(len(dryTrace), j+5)], 60)
 		w["answers_at_boundaries"] = answers
 		w["answer_of_the_racing_query"] = r.a
 		if reason != "" {
